@@ -172,23 +172,24 @@ Definition re_at : str -> option str :=
 (* ^\[(?:[-.\d]+|#)\] *)
 Definition re_index (s : str) : option str :=
   match s with
-  | 91 :: t =>
-    let (ds, r) := span (fun c => (c =? 45) || (c =? 46) || is_digit c) t in
-    match ds, r with
-    | _ :: _, 93 :: r' => Some r'
-    | _, _ =>
-      match t with
-      | 35 :: 93 :: r' => Some r'
-      | _ => None
+  | c :: t =>
+    if c =? 91 then
+      let (ds, r) := span (fun c => (c =? 45) || (c =? 46) || is_digit c) t in
+      match ds, skip_byte 93 r with
+      | _ :: _, Some r' => Some r'
+      | _, _ => skip_string [35; 93] t
       end
-    end
-  | _ => None
+    else None
+  | [] => None
   end.
 
 (* ^[!+?]?= *)
 Definition re_assign_op (s : str) : option str :=
-  match s with
-  | 61 :: r => Some r
-  | c :: 61 :: r => if (c =? 33) || (c =? 43) || (c =? 63) then Some r else None
-  | _ => None
+  match skip_byte 61 s with
+  | Some r => Some r
+  | None =>
+    match s with
+    | c :: t => if (c =? 33) || (c =? 43) || (c =? 63) then skip_byte 61 t else None
+    | [] => None
+    end
   end.
